@@ -11,6 +11,7 @@ import (
 	"regexp"
 	"strings"
 	"sync"
+	"sync/atomic"
 	"time"
 
 	stun "github.com/pion/stun/v3"
@@ -199,6 +200,7 @@ type raceConn struct {
 	closed chan struct{}
 	once   sync.Once
 	answer bool
+	writes atomic.Int64
 }
 
 func (r *raceConn) Read(p []byte) (int, error) {
@@ -216,6 +218,7 @@ func (r *raceConn) Write(p []byte) (int, error) {
 		return 0, errors.New("closed")
 	default:
 	}
+	r.writes.Add(1)
 	if r.answer && len(p) >= 20 {
 		resp := new(stun.Message)
 		copy(resp.TransactionID[:], p[8:20])
@@ -457,7 +460,51 @@ func raceDefaultCollector(c *Ctx) {
 	racePassFinish(c, total, "Client with the built-in ticker collector and a caller-supplied clock: a lost request is retransmitted and timed out")
 }
 
+// ---- C11: the built-in collector with a clock that does not move ----
+
+type frozenClock struct{ t time.Time }
+
+func (f frozenClock) Now() time.Time { return f.t }
+
+// raceFrozenClock: the retransmission schedule is stated on the client's clock. With a clock that stands still
+// (in the year 2000) and the built-in ticker collector, nothing may be retransmitted or timed out, however much
+// wall time passes: "no event" cannot be produced by a slow machine, so this wall-clock wait cannot raise a false alarm.
+func raceFrozenClock(c *Ctx) {
+	iters := 3
+	if c.Thorough() {
+		iters = 20
+	}
+	var total int64
+	for it := 0; it < iters; it++ {
+		total++
+		conn := &raceConn{in: make(chan []byte, 4), closed: make(chan struct{})}
+		clk := frozenClock{time.Date(2000, 1, 1, 0, 0, 0, 0, time.UTC)}
+		cl, err := stun.NewClient(conn, stun.WithClock(clk), stun.WithRTO(time.Millisecond))
+		if err != nil {
+			c.Fail("NewClient: %v", err)
+		}
+		var events atomic.Int64
+		var first atomic.Value
+		serr := cl.Start(stun.MustBuild(stun.BindingRequest, stun.TransactionID), func(e stun.Event) {
+			events.Add(1)
+			first.CompareAndSwap(nil, fmt.Sprint(e.Error))
+		})
+		time.Sleep(120 * time.Millisecond)
+		w, ev := conn.writes.Load(), events.Load()
+		if serr != nil || w != 1 || ev != 0 {
+			c.Res.Violations = append(c.Res.Violations, raceViolation("default-collector/acts-while-the-clock-stands-still",
+				fmt.Sprintf("built-in collector, client clock frozen at 2000-01-01, RTO 1 ms, 120 ms of wall time: Start=%v, %d writes (want 1), %d handler calls (want 0; first: %v): the schedule does not follow the client's clock", serr, w, ev, first.Load())))
+			_ = cl.Close()
+			racePassFinish(c, total, "")
+			return
+		}
+		_ = cl.Close()
+	}
+	racePassFinish(c, total, "Client with the built-in ticker collector and a clock that stands still: nothing is retransmitted or timed out")
+}
+
 func init() {
+	registry["C11"] = propImpl{Run: raceFrozenClock, Replay: racePassReplay(raceFrozenClock)}
 	registry["C10"] = propImpl{Run: raceDefaultCollector, Replay: racePassReplay(raceDefaultCollector)}
 	registry["C14"] = propImpl{Run: raceAgent, Replay: racePassReplay(raceAgent)}
 	registry["C15"] = propImpl{Run: raceClient, Replay: racePassReplay(raceClient)}
